@@ -48,6 +48,51 @@ template<typename T, typename T_Sbx>
 inline constexpr bool has_sandbox_equivalent_v =
   has_sandbox_equivalent<T, T_Sbx>::value;
 
+// Size of the image an object of type T has in sandbox memory, where RLBox
+// knows that image: fundamental types, enumerations, pointers, structs that
+// have been described with rlbox_load_structs_from_library, and arrays of
+// these (sized element by element: there is no tainted_volatile of an array of
+// structs). Every other object type - unions, structs that were never
+// described, nullptr_t, pointers to members - can only be handed around and is
+// sized as the application sees it; so is void (where the compiler gives it a
+// size).
+template<typename T, typename T_Sbx, typename T_Enable = void>
+struct sandbox_image_size
+{
+  static constexpr bool known = false;
+  static constexpr size_t value = sizeof(T);
+};
+
+template<typename T, typename T_Sbx>
+struct sandbox_image_size<
+  T,
+  T_Sbx,
+  std::enable_if_t<
+    (std::is_arithmetic_v<std::remove_cv_t<std::remove_all_extents_t<T>>> ||
+     std::is_enum_v<std::remove_cv_t<std::remove_all_extents_t<T>>> ||
+     std::is_pointer_v<std::remove_cv_t<std::remove_all_extents_t<T>>>)>>
+{
+  using T_Base = std::remove_cv_t<std::remove_all_extents_t<T>>;
+  static constexpr bool known = true;
+  static constexpr size_t value =
+    sizeof(tainted_volatile<T_Base, T_Sbx>) * (sizeof(T) / sizeof(T_Base));
+};
+
+template<typename T, typename T_Sbx>
+struct sandbox_image_size<
+  T,
+  T_Sbx,
+  std::enable_if_t<std::conjunction_v<
+    std::is_class<std::remove_cv_t<std::remove_all_extents_t<T>>>,
+    has_sandbox_equivalent<std::remove_cv_t<std::remove_all_extents_t<T>>,
+                           T_Sbx>>>>
+{
+  using T_Base = std::remove_cv_t<std::remove_all_extents_t<T>>;
+  static constexpr bool known = true;
+  static constexpr size_t value =
+    sizeof(tainted_volatile<T_Base, T_Sbx>) * (sizeof(T) / sizeof(T_Base));
+};
+
 // This is used by rlbox_load_structs_from_library to test the current namespace
 struct markerStruct
 {};
